@@ -20,6 +20,7 @@ line -> request parameters).
 """
 import concurrent.futures
 import copy
+import hashlib
 import json
 import os
 import random
@@ -904,7 +905,7 @@ def validate_proto(ctx, cases, traces):
     ctx.traces_validated += len(traces)
     reach = {}
     if rej:
-        sub = rej[:40]
+        sub = rej[:600]
         df = ctx.path("proto-diag.ndjson")
         vlib.write_ndjson(df, [traces[i] for i in sub])
         r = ctx.tlc("Plugin", "Trace_Plugin", "Trace_Plugin_diag", files=dict(files, **{"traces.ndjson": df}),
@@ -1250,7 +1251,30 @@ def stage_childhang(ctx, bins):
 
 
 # ------------------------------------------------------------------------------------------- main
+def repo_fingerprint(ctx, repo):
+    """HEAD + working-tree diff of the repository (it may be committed to while we run)"""
+    a = ctx.run(["git", "-C", repo, "rev-parse", "HEAD"], check=False).stdout.strip()
+    b = ctx.run(["git", "-C", repo, "status", "--porcelain"], check=False).stdout
+    c = ctx.run(["git", "-C", repo, "diff", "HEAD"], check=False).stdout
+    return a + ":" + hashlib.sha1((b + c).encode()).hexdigest()
+
+
 def setup(ctx):
+    # thriftgo, the two plugins and the in-process harness must be built from the same state of the repository
+    # (the in-process request is the reference for what the binary's plugin decodes), and the repository may be
+    # committed to while the check runs: build everything from one snapshot of the working tree.
+    repo = vlib.REPO
+    snap = os.path.join(ctx.scratch, "repo-snap")
+    for attempt in range(6):
+        fp = repo_fingerprint(ctx, repo)
+        shutil.rmtree(snap, ignore_errors=True)
+        shutil.copytree(repo, snap, symlinks=True, ignore=shutil.ignore_patterns(".git"))
+        if repo_fingerprint(ctx, repo) == fp:
+            break
+        time.sleep(1 + attempt)
+    else:
+        raise vlib.MachineryError("the repository kept changing while it was copied")
+    vlib.REPO = snap
     bins = Bins()
     bins.thriftgo = ctx.build_repo(".", "thriftgo")
     bins.rec0 = build_plugin(ctx, "thrift-gen-verifrec", "v0.0.0")
